@@ -97,6 +97,11 @@ CHECKS["C18"] = ("DESIGN §4 C18",
     "every letter / dof / operator of the stated alphabets is evaluated on the real laws and operators; oracles: Richardson-extrapolated differences of the implementation's own Compute_W and residuals (truncation estimate added to the tolerance, inconclusive entries counted), objectivity, reference state, discrete energy balance at every step",
     "trusted: numpy kinematics written by the harness (own Kelvin-Mandel form of delta E); fixed step sizes 2e-6..8e-6; runs whose Newton does not converge are skipped and counted")
 
+CHECKS["C19"] = ("DESIGN §4 C19",
+    "explicit-state exploration: material level = BFS over (total strain, internal variables) states merged by fingerprint, 20 strain-increment letters, depth 2-3 quick / 1-4 thorough, for every behaviour combination the constructor accepts within 2 deviations of the default (quick) / the full accepted product x 3 dimension modes (thorough), both local solvers in every case; simulation level = all unmerged sequences over {Solve(a), Solve(b), Solve again, Save_Iter, Set_Iter(0), Set_Iter(1)} to depth 4 (quick) / 5 (thorough)",
+    "every strain path / operation sequence up to the bound runs on the real Behavior.Integrate and Simulations.InElastic; oracles: documented yield/flow/hardening definitions in numpy, Richardson differences for the tangent (kinks skipped and counted), byte-level purity of the inputs, spy on the committed state handed to Integrate",
+    "trusted: numpy reference of the documented laws; steps the library itself reports as not converged are counted and not judged (the property quantifies over converging steps)")
+
 PENDING_REASON = "not claimed yet: the bounded-exhaustive check for this property is designed (DESIGN.md §4) but not built in the committed tree"
 
 
